@@ -142,21 +142,39 @@ struct OpenCase {
 	value_sat: u64,
 	push_permille: u16,
 	extra_blocks: u8,
+	/// generated schedule after the negotiation: interleaves disconnects, reconnects, blocks and completions
+	#[serde(default)]
+	steps: Vec<OStep>,
+}
+
+#[derive(Clone, Debug, Serialize, Deserialize)]
+enum OStep {
+	Pump,
+	Disconnect,
+	Reconnect,
+	/// mine everything in the mempool plus n-1 empty blocks
+	Mine(u8),
+	CompleteFunder,
+	CompleteFundee,
 }
 
 fn open_strat() -> impl Strategy<Value = OpenCase> {
-	(world_spec(vec![Topology::Pair]), any::<bool>(), any::<bool>(), 0u8..4, 0u8..4, prop_oneof![Just(100_000u64), 30_000u64..5_000_000], 0u16..800, 0u8..4)
-		.prop_map(|(spec, async_funder, async_fundee, complete_funder_at, complete_fundee_at, value_sat, push_permille, extra_blocks)| OpenCase { spec, async_funder, async_fundee, complete_funder_at, complete_fundee_at, value_sat, push_permille, extra_blocks })
+	let step = prop_oneof![
+		3 => Just(OStep::Pump),
+		2 => Just(OStep::Disconnect),
+		2 => Just(OStep::Reconnect),
+		3 => (1u8..9).prop_map(OStep::Mine),
+		1 => Just(OStep::CompleteFunder),
+		1 => Just(OStep::CompleteFundee),
+	];
+	(
+		(world_spec(vec![Topology::Pair]), any::<bool>(), any::<bool>(), 0u8..5, 0u8..5, prop_oneof![Just(100_000u64), 30_000u64..5_000_000], 0u16..800, 0u8..4),
+		proptest::collection::vec(step, 0..12),
+	)
+		.prop_map(|((spec, async_funder, async_fundee, complete_funder_at, complete_fundee_at, value_sat, push_permille, extra_blocks), steps)| OpenCase { spec, async_funder, async_fundee, complete_funder_at, complete_fundee_at, value_sat, push_permille, extra_blocks, steps })
 }
 
 fn open_oracle(c: &OpenCase, ctx: &mut Ctx) -> CaseResult {
-	let r = open_oracle_inner(c, ctx);
-	r
-}
-
-fn open_oracle_inner(c: &OpenCase, ctx: &mut Ctx) -> CaseResult {
-	use lightning::events::Event;
-	use netsim::rec::*;
 	use netsim::sim::*;
 	use netsim::world::*;
 	// an empty world: no channel yet
@@ -166,6 +184,17 @@ fn open_oracle_inner(c: &OpenCase, ctx: &mut Ctx) -> CaseResult {
 		*nd.fee_estimator.sat_per_kw.lock().unwrap() = c.spec.feerate;
 	}
 	let mut sim = Sim::new(w);
+	let r = open_oracle_inner(c, ctx, &mut sim);
+	if ctx.replay && r.is_err() {
+		println!("==== history ====\n{}", dump_history(&sim));
+	}
+	r
+}
+
+fn open_oracle_inner(c: &OpenCase, ctx: &mut Ctx, sim: &mut netsim::sim::Sim) -> CaseResult {
+	use lightning::events::Event;
+	use netsim::rec::*;
+	use netsim::sim::*;
 	if c.spec.ctype != CType::Static {
 		sim.fund_wallets(2);
 	}
@@ -261,43 +290,73 @@ fn open_oracle_inner(c: &OpenCase, ctx: &mut Ctx) -> CaseResult {
 		}
 	};
 	// phase A: negotiation up to the point where persistence matters
-	pump(&mut sim, &mut funding_tx);
-	if let Err(e) = check(&sim, &funding_tx, &mut withheld, &mut saw_gated) {
-		if ctx.replay {
-			println!("==== history ====\n{}", dump_history(&sim));
+	pump(sim, &mut funding_tx);
+	check(sim, &funding_tx, &mut withheld, &mut saw_gated)?;
+	let mut schedule_used = 0u32;
+	for st in c.steps.iter() {
+		match st {
+			OStep::Pump => pump(sim, &mut funding_tx),
+			OStep::Disconnect => {
+				if sim.is_connected(0, 1) {
+					sim.disconnect(0, 1);
+					schedule_used += 1;
+				}
+			},
+			OStep::Reconnect => {
+				if !sim.is_connected(0, 1) {
+					sim.reconnect(0, 1);
+					pump(sim, &mut funding_tx);
+					schedule_used += 1;
+				}
+			},
+			OStep::Mine(n) => {
+				let txs = sim.chain.mempool.clone();
+				sim.mine_block(txs);
+				sim.mine_empty(*n as u32 - 1);
+			},
+			OStep::CompleteFunder => complete(sim, 0),
+			OStep::CompleteFundee => complete(sim, 1),
 		}
-		return Err(e);
+		sim.drain_all();
+		check(sim, &funding_tx, &mut withheld, &mut saw_gated)?;
 	}
+	ctx.label_if(schedule_used > 0, "disconnect-during-establishment");
 	let stage_done = |at: u8, stage: u8| at <= stage;
+	if !sim.is_connected(0, 1) && c.complete_funder_at < 4 {
+		sim.reconnect(0, 1);
+	}
 	for stage in 0u8..4 {
 		if stage_done(c.complete_fundee_at, stage) {
-			complete(&mut sim, 1);
+			complete(sim, 1);
 		}
 		if stage_done(c.complete_funder_at, stage) {
-			complete(&mut sim, 0);
+			complete(sim, 0);
 		}
-		pump(&mut sim, &mut funding_tx);
-		check(&sim, &funding_tx, &mut withheld, &mut saw_gated)?;
+		pump(sim, &mut funding_tx);
+		check(sim, &funding_tx, &mut withheld, &mut saw_gated)?;
 		if stage == 1 {
 			// confirm the funding transaction if it has been broadcast (it is in the mempool then); otherwise
 			// just let time pass
 			let txs = sim.chain.mempool.clone();
 			sim.mine_block(txs);
 			sim.mine_empty(6);
-			pump(&mut sim, &mut funding_tx);
-			check(&sim, &funding_tx, &mut withheld, &mut saw_gated)?;
+			pump(sim, &mut funding_tx);
+			check(sim, &funding_tx, &mut withheld, &mut saw_gated)?;
 		}
 		if stage == 2 {
 			sim.mine_empty(c.extra_blocks as u32 + 1);
 		}
 	}
-	complete(&mut sim, 0);
-	complete(&mut sim, 1);
+	complete(sim, 0);
+	complete(sim, 1);
+	if !sim.is_connected(0, 1) {
+		sim.reconnect(0, 1);
+	}
 	let txs = sim.chain.mempool.clone();
 	sim.mine_block(txs);
 	sim.mine_empty(7);
-	pump(&mut sim, &mut funding_tx);
-	check(&sim, &funding_tx, &mut withheld, &mut saw_gated)?;
+	pump(sim, &mut funding_tx);
+	check(sim, &funding_tx, &mut withheld, &mut saw_gated)?;
 	// (d) release: once everything completed the channel must come up
 	let ready = sim.w.nodes[0].node.list_channels().iter().any(|d| d.is_channel_ready) && sim.w.nodes[1].node.list_channels().iter().any(|d| d.is_channel_ready);
 	if funding_tx.is_some() {
